@@ -525,6 +525,12 @@ def atom(name, nosep='/\\', nonempty=True, declare=True):
 def opaque(name):
     """fresh text of arbitrary content whose length is a plain Int variable (no sequence reasoning:
     for code that only moves the text around, measures and encodes it)"""
+    r = core._rp()
+    if r is not None:
+        r.inputs[name + '_chars'] = True
+        n = r.model.get(name + '_chars')
+        n = builtins.int(n) if _isinstance(n, builtins.int) else 0
+        return 'a' * max(0, min(n, 1 << 20))
     e = E()
     t = z3.String('%s!%d' % (name, next(e.fresh)))
     n = e.newvar(name + '_chars', z3.IntSort())
